@@ -7,6 +7,7 @@ package main
 
 import (
 	"bufio"
+	"bytes"
 	"crypto/sha1"
 	"crypto/sha256"
 	"encoding/hex"
@@ -208,6 +209,18 @@ func obsString(s string) ev {
 			if err := r2.UnmarshalBinary(b); err != nil {
 				return "f"
 			}
+			// the encoding belongs to the caller: other operations on refs (which share pooled buffers) must not
+			// change it before it is decoded or stored
+			keep := append([]byte(nil), b...)
+			for _, other := range decoys {
+				_ = other.String()
+				_ = other.Digest()
+				_, _ = other.MarshalBinary()
+			}
+			var r3 blob.Ref
+			if !bytes.Equal(keep, b) || r3.UnmarshalBinary(b) != nil || r3 != r {
+				return "f"
+			}
 			return tf(r2 == r && r2.String() == s)
 		})
 		o["parts"] = try(e, "HashName/Digest", func() string { return tf(r.HashName()+"-"+r.Digest() == s) })
@@ -243,6 +256,13 @@ type pairCase struct {
 }
 
 var digitsOf = map[string]int{"sha1": 40, "sha224": 56, "sha256": 64}
+
+// decoys: refs of every supported hash, used to exercise the package's shared buffers between two uses of a value
+var decoys = []blob.Ref{
+	blob.RefFromString("decoy-1"),
+	blob.MustParse("sha1-0beec7b5ea3f0fdbc95d0dd47f3c5bc275da8a33"),
+	blob.MustParse("sha256-2c26b46b68ffc68ff99b453c1d30413413422d706483bfa0f98a5e886266e7ae"),
+}
 
 const hexd = "0123456789abcdef"
 
